@@ -241,3 +241,5 @@ func (e *Explorer) visit(path []Op, extend bool) (bool, bool) {
 	}
 	return true, extend
 }
+
+func vrtTick(n int) { vrt.Tick(n) }
